@@ -345,13 +345,77 @@ static void do_pm(void) {
     carquet_column_index_builder_destroy(b);
 }
 
+/* ------------------------------------------------------------------ pmh: long add_page histories, every page probed */
+/* pmh <type> <pages> <queries>   page = nulls/min/max/nullpage/values ; query = <qmin|N>/<qmax|N>
+ * After the LAST carquet_column_index_add_page every page is asked about every query (the builder's arrays grow by
+ * doubling, so early pages have been moved several times by then). */
+static void do_pmh(void) {
+    int type = atoi(h_tok[1]);
+    carquet_column_index_builder_t* b = carquet_column_index_builder_create((carquet_physical_type_t)type, 0);
+    if (!b) { puts("ERR oom"); return; }
+    int np = 0, cap = 0; val_t** data = NULL; int* nd = NULL; int addbad = 0;
+    char* save = NULL;
+    for (char* pg = strtok_r(h_tok[2], ";", &save); pg; pg = strtok_r(NULL, ";", &save)) {
+        char* f[5]; int nf = 0; char* sv = NULL;
+        for (char* x = strtok_r(pg, "/", &sv); x && nf < 5; x = strtok_r(NULL, "/", &sv)) f[nf++] = x;
+        if (nf != 5) continue;
+        val_t mn = { NULL, 0, NULL }, mx = { NULL, 0, NULL };
+        if (strcmp(f[1], "-")) mn = unhex(f[1]);
+        if (strcmp(f[2], "-")) mx = unhex(f[2]);
+        if (carquet_column_index_add_page(b, atol(f[0]), mn.base ? mn.p : NULL, (int32_t)mn.n, mx.base ? mx.p : NULL,
+                                          (int32_t)mx.n, f[3][0] == '1') != CARQUET_OK) addbad++;
+        free(mn.base); free(mx.base);
+        if (np >= cap) { cap = 2 * cap + 16; data = realloc(data, sizeof *data * (size_t)cap); nd = realloc(nd, sizeof *nd * (size_t)cap); }
+        nd[np] = split_vals(f[4], &data[np]);
+        np++;
+    }
+    printf("OK n=%d addbad=%d m=", np, addbad);
+    /* two passes over the queries: answers, then ground truth */
+    char* qcopy = strdup(h_tok[3]);
+    for (int pass = 0; pass < 2; pass++) {
+        char* qs = pass ? qcopy : h_tok[3];
+        if (pass) fputs(" T=", stdout);
+        char* sq = NULL; int qn = 0;
+        for (char* q = strtok_r(qs, ";", &sq); q; q = strtok_r(NULL, ";", &sq), qn++) {
+            char* sl = strchr(q, '/');
+            if (!sl) continue;
+            *sl = 0;
+            int hl = strcmp(q, "N") != 0, hh = strcmp(sl + 1, "N") != 0;
+            val_t lo = { NULL, 0, NULL }, hi = { NULL, 0, NULL };
+            if (hl) lo = unhex(q);
+            if (hh) hi = unhex(sl + 1);
+            if (qn) putchar('|');
+            for (int i = 0; i < np; i++) {
+                if (!pass) {
+                    bool m = true;
+                    carquet_status_t st = carquet_column_index_page_might_match(b, i, hl ? lo.p : NULL, hh ? hi.p : NULL,
+                                                                                (int32_t)(hl ? lo.n : hi.n), &m);
+                    putchar(st != CARQUET_OK ? 'E' : m ? '1' : '0');
+                } else {
+                    int any = 0;
+                    for (int j = 0; j < nd[i]; j++) if (in_range(type, &data[i][j], hl ? &lo : NULL, hh ? &hi : NULL)) any = 1;
+                    putchar(any ? '1' : '0');
+                }
+            }
+            free(lo.base); free(hi.base);
+        }
+    }
+    putchar('\n');
+    free(qcopy);
+    for (int i = 0; i < np; i++) free_vals(data[i], nd[i]);
+    free(data); free(nd);
+    carquet_column_index_builder_destroy(b);
+}
+
 /* ------------------------------------------------------------------ pmw: column index built from real pages */
 /* pmw <type> <tlen> <maxdef> <pages> <idx> <qmin|N> <qmax|N>   pages joined by ";", a page = batches joined by ",",
  * batch = <vals|->/<def levels|->/<num_values>.  Every page goes through carquet's page writer; what the page writer
  * reports (null count, min/max or none) is handed to carquet_column_index_add_page (is_null_page = the page has no value);
  * page_might_match is then asked about page <idx> and compared with the values that page really holds. */
 static void do_pmw(void) {
-    int type = atoi(h_tok[1]), tlen = atoi(h_tok[2]), maxdef = atoi(h_tok[3]), idx = atoi(h_tok[5]);
+    int type = atoi(h_tok[1]), tlen = atoi(h_tok[2]), maxdef = atoi(h_tok[3]);
+    int all = !strcmp(h_tok[5], "all"), idx = all ? -1 : atoi(h_tok[5]);
+    char* anyp = NULL; int anycap = 0;         /* per-page ground truth when every page is probed */
     int hl = strcmp(h_tok[6], "N") != 0, hh = strcmp(h_tok[7], "N") != 0;
     val_t lo = { NULL, 0, NULL }, hi = { NULL, 0, NULL };
     if (hl) lo = unhex(h_tok[6]);
@@ -393,6 +457,10 @@ static void do_pmw(void) {
             }
             if (st != CARQUET_OK) wst = (int)st;
             nonnull += n;
+            if (all) {
+                if (pno >= anycap) { int nc2 = 2 * pno + 16; anyp = realloc(anyp, (size_t)nc2); memset(anyp + anycap, '0', (size_t)(nc2 - anycap)); anycap = nc2; }
+                for (int i = 0; i < n; i++) if (in_range(type, &v[i], hl ? &lo : NULL, hh ? &hi : NULL)) anyp[pno] = '1';
+            }
             if (pno == idx) for (int i = 0; i < n; i++) if (in_range(type, &v[i], hl ? &lo : NULL, hh ? &hi : NULL)) any = 1;
             free(defs); free_vals(v, n);
         }
@@ -406,10 +474,25 @@ static void do_pmw(void) {
         carquet_page_writer_reset(w);
     }
     if (!pno) putchar('-');
-    bool m = true;
-    carquet_status_t st = carquet_column_index_page_might_match(b, idx, hl ? lo.p : NULL, hh ? hi.p : NULL,
-                                                                (int32_t)(hl ? lo.n : hi.n), &m);
-    printf(" m=%d:%d T=%d\n", (int)st, m ? 1 : 0, any);
+    if (all) {
+        /* every page is asked after the LAST add (the arrays may have been re-allocated several times since) */
+        fputs(" m=", stdout);
+        for (int i = 0; i < pno; i++) {
+            bool m = true;
+            carquet_status_t st = carquet_column_index_page_might_match(b, i, hl ? lo.p : NULL, hh ? hi.p : NULL,
+                                                                        (int32_t)(hl ? lo.n : hi.n), &m);
+            putchar(st != CARQUET_OK ? 'E' : m ? '1' : '0');
+        }
+        fputs(" T=", stdout);
+        for (int i = 0; i < pno; i++) putchar(i < anycap ? anyp[i] : '0');
+        putchar('\n');
+        free(anyp);
+    } else {
+        bool m = true;
+        carquet_status_t st = carquet_column_index_page_might_match(b, idx, hl ? lo.p : NULL, hh ? hi.p : NULL,
+                                                                    (int32_t)(hl ? lo.n : hi.n), &m);
+        printf(" m=%d:%d T=%d\n", (int)st, m ? 1 : 0, any);
+    }
     free(lo.base); free(hi.base);
     carquet_page_writer_destroy(w);
     carquet_column_index_builder_destroy(b);
@@ -517,6 +600,7 @@ int main(void) {
         else if (!strcmp(h_tok[0], "pm") && h_ntok == 7) do_pm();
         else if (!strcmp(h_tok[0], "file") && (h_ntok == 6 || h_ntok == 7)) do_file();
         else if (!strcmp(h_tok[0], "pmw") && h_ntok == 8) do_pmw();
+        else if (!strcmp(h_tok[0], "pmh") && h_ntok == 4) do_pmh();
         else puts("ERR unknown-op");
         fflush(stdout);
     }
